@@ -229,6 +229,16 @@ def make_projects(ex, seed, thorough=False):
     return info
 
 
+def expected_fractions(seed):
+    """soil id -> (sand, silt, clay) per horizon as written to the soil files (the PTF routes' inputs)"""
+    fr = {}
+    for sid, hz, _ in soils(seed):
+        fr[sid] = [(float(h[8]), float(h[9]), float(h[10])) for h in hz]
+    for sid, gwl, hz in file_soils(seed) + sweep_soils(seed):
+        fr[sid] = [(float(h[8]), float(h[9]), float(h[10])) for h in hz]
+    return fr
+
+
 # ---------------------------------------------------------------- configuration sweep of the parameter routes
 SWEEP_FACTORS = [
     ("ptf", [0, 1, 2, 3, 4]),
@@ -289,6 +299,15 @@ def sweep_soils(seed):
             f = {"explicit": ((31, 16, 45), (29, 19, 47)), "none": ((E, E, E), (E, E, E)), "porevolume": ((E, E, 46), (E, E, 48))}[vals]
             out.append(("X%s%d" % (code, stn), rnd.choice([12, 7, 16]),
                         [(rnd.choice([1.14, 1.60]), "ULS", 3, 2, st1) + f[0] + (26, 63, 11), (0.40, rnd.choice(["SL4", "LT2"]), 20, 3, st2) + f[1] + (45, 35, 20)]))
+    # corners of the PTF domain (every fraction >= 5, sand <= 85): silt, clay and sand corner, lowest / highest organic carbon;
+    # pore volume only (wide enough for the PTF's field capacity)
+    lo = lambda: rnd.choice([5, 6, 7])
+    a, b = lo(), lo()
+    out.append(("XC1", 99, [(rnd.choice([0.00, 0.05, 0.10]), "UU", 3, 2, 0, E, E, 55, a, 100 - a - b, b), (0.10, "UU", 20, 3, 0, E, E, 55, 5, 90, 5)]))
+    a, b = lo(), lo()
+    out.append(("XC2", 99, [(rnd.choice([0.05, 6.00]), "TT", 3, 2, 0, E, E, 85, a, b, 100 - a - b), (0.00, "TT", 20, 3, 0, E, E, 85, 5, 5, 90)]))
+    a, b = lo(), lo()
+    out.append(("XC3", 99, [(rnd.choice([0.05, 6.00]), "SS", 3, 2, 0, E, E, 60, 85, 15 - b, b), (0.10, "SS", 20, 3, 0, E, E, 60, 85, 10, 5)]))
     return out
 
 
@@ -306,6 +325,13 @@ def sweep_lines(seed, thorough):
         if c["gw"] == "timeseries":
             s += " gwId=" + rnd.choice(["G1", "G2", "G3", "G4"])
         lines.append((s, "sweep:" + ",".join("%s=%s" % kv for kv in sorted(c.items()))))
+    # the corners of the PTF domain on every PTF (silt corner with PTF 4 always: its third argument is sand, not silt)
+    combos = [(k, "XC%d" % (1 + (k + seed + j) % 3)) for k in (1, 2, 3, 4) for j in ((0, 1, 2) if thorough else (0,))]
+    if (4, "XC1") not in combos:
+        combos.append((4, "XC1"))
+    for k, sid in combos:
+        lines.append(("project=c15w %s soilId=%s plotNr=10001 EndDate=12311980 resultfolder=R/c15c_%d%s PTF=%d SoilFileExtension=%s GroundWaterFrom=1"
+                      % (base, sid, k, sid, k, rnd.choice(["csv", "txt"])), "ptf-corner:ptf%d:%s" % (k, sid)))
     return lines, cfgs
 
 
